@@ -159,6 +159,12 @@ def op_edit_nested_options(src, n):
         f.write("argument('subname', default='sub-changed%d')\n" % n)
 
 
+def op_add_other_platform(src, n):
+    """a file that matches the patterns but is named for another platform (filter_by_platform makes
+    it an 'extra' file: distributed, not built)"""
+    w(src, 'src/helper_windows%d.c' % n, 'int hw%d;\n' % n)
+
+
 def op_drop_find(src, n):
     """the script stops using find_files and starts executing a script that was no input before"""
     w(src, 'aux/build.bfg', "export(n=%d)\n" % n)
@@ -226,7 +232,8 @@ OPS = [('add-matching', op_add_match), ('add-nonmatching', op_add_nomatch), ('ad
        ('drop-find_files', op_drop_find), ('edit-new-submodule', op_edit_new_submodule),
        ('add-empty-dir', op_add_empty_dir), ('fill-new-dirs', op_fill_new_dirs),
        ('toolchain-drop-line', op_toolchain_drop), ('toolchain-edit', op_toolchain_edit),
-       ('edit-submodule-script', op_edit_submodule), ('edit-nested-options', op_edit_nested_options)]
+       ('edit-submodule-script', op_edit_submodule), ('edit-nested-options', op_edit_nested_options),
+       ('add-other-platform-file', op_add_other_platform)]
 OPD = dict(OPS)
 
 
@@ -405,7 +412,8 @@ def _explore(arg):
 def run(ctx):
     depth = 3 if ctx.thorough else 2
     variants = list(VARIANTS) if ctx.thorough else ['one-pattern', 'patterns-extra-exclude', 'directories',
-                                                    'submodule-options-pkgconfig', 'toolchain-file', 'custom-filter']
+                                                    'submodule-options-pkgconfig', 'toolchain-file', 'custom-filter',
+                                                    'platform-filter-nocache']
     shards = []
     for v in variants:
         for b in ('make', 'ninja'):
